@@ -1,10 +1,15 @@
 From Coq Require Extraction.
 From Coq Require Import ExtrOcamlBasic.
-From NV Require Import Base.Witness Bcf.Ints Bcf.Typed Bcf.Genotype.
+From NV Require Import Base.Witness Bcf.Ints Bcf.Typed Bcf.Genotype Bcf.Strings Bcf.StringMap Bcf.Record.
 Extraction "model.ml" nv_types_witness
   enc_info_int dec_info_int enc_info_ints dec_info_ints
   enc_info_float dec_info_float enc_info_floats dec_info_floats
   enc_info_string dec_info_string enc_info_missing
   enc_fmt_int dec_fmt_int enc_fmt_ints dec_fmt_ints
   enc_fmt_float dec_fmt_float enc_fmt_floats dec_fmt_floats
-  enc_gt dec_gt classify enc_type read_type.
+  enc_gt dec_gt classify enc_type read_type
+  enc_info_char dec_info_char enc_info_chars dec_info_chars enc_info_strs dec_info_strs dec_info_str
+  enc_fmt_chars dec_fmt_chars enc_fmt_char_arrays dec_fmt_char_arrays
+  enc_fmt_strings dec_fmt_strings enc_fmt_str_arrays dec_fmt_str_arrays
+  build_strings build_contigs get_index get_index_of no_clobber_from PASS
+  enc_record enc_site enc_index enc_indices dec_index dec_indices dec_frame dec_head.
